@@ -123,6 +123,40 @@ CLAIMED = {
         note="Lean kernel; standard axioms; H5.Spec.Tokenizer written from the standard from memory; lexical.py plan.",
         technique="Lean 4 model + escaping lemmas; differential correspondence; retokenisation oracle with shrinking",
         design="6/C08"),
+    "C01": dict(
+        category="translation_validation",
+        text="Hand model of the whole tree-construction stage in Lean (arena DOM, 23 phases, one function per Python "
+             "handler, dispatch through tables extracted from /repo each run, every exception site and loop explicit) "
+             "validated against the real parser by exact comparison of tree, parse-error codes + datavars, tokenizer "
+             "state switches and cdataAllowed after every token on ~17k inputs per quick run (>1.3M in the work package; "
+             "257/258 phase functions reached). The model is the reference for the search: a concrete input on which the "
+             "real parser differs from it is reported as the failing input. Only table facts are proved; no simulation "
+             "against an independent transcription of the standard exists yet, and the recorded deviations of the pinned "
+             "tree from the standard (no template, older special set, ...) are findings, not checked by theorem.",
+        note="model = pinned behaviour; tied by correspondence; WHATWG clause relative to recorded deviations.",
+        technique="Lean 4 executable model validated by differential correspondence (translation validation)",
+        design="6/C01"),
+    "C03": dict(
+        category="translation_validation",
+        text="Totality is decided on the real code: soup / injected token lists / exhaustive short tag sequences, random "
+             "bytes, EOF at every offset, depth series up to 5000 (50000 thorough) for 30 nestable tag classes under "
+             "Python's default recursion limit, both builders, every container; oracle = no exception, finishes within a "
+             "time limit, document skeleton. The Lean tree-builder and tokenizer models make every Python exception "
+             "source and every loop's fuel explicit and reproduce the class and site of every exception the real parser "
+             "raised (this is how the non-termination, assertion, AttributeError and RecursionError defects fixed in "
+             "/repo were found). The invariant proof that no exception site is reachable is not done.",
+        note="search on the real code + model with explicit exception sites; CPython recursion limit observed.",
+        technique="differential correspondence with explicit-exception Lean model + totality search on the real code",
+        design="6/C03"),
+    "C04": dict(
+        category="translation_validation",
+        text="The real etree, etree(fullTree) and dom builders are compared on the same inputs (namespacing on/off, "
+             "document/fragment) by direct traversal, and both are compared with the single arena model H5.Model.Dom / "
+             "TreeBuilder (intended common semantics). Proved: the abstraction's text normal form (no adjacent/empty text) "
+             "and the attribute-dict laws it uses. The per-backend representations are not modelled separately.",
+        note="search on the real code; common arena model tied to both back ends by correspondence.",
+        technique="cross-backend differential on the real code + correspondence with a common Lean model",
+        design="6/C04"),
 }
 
 PENDING_REASON = "check under construction in this round: model/theorems not yet committed (see DESIGN section 8); not claimed"
